@@ -96,7 +96,7 @@ theorem secNanos_field (S : Schema) (st : MState) (m : Spec.AbsMsg)
 theorem value_sim (S : Schema) (rec : Loader) (sub : Spec.SubDecoder)
     (f : FieldD) (pf : PField) (v : Val)
     (hw : wfFieldB S.length f = true) (hg : goodFieldB f = true)
-    (hsub : SubOk S rec sub f pf.payload)
+    (hsub : pf.wt = 2 → SubOk S rec sub f pf.payload)
     (h64 : pf.vint < 2 ^ 64)
     (hn0 : pf.wt = 0 → isNarrowTy f.ty = true → pf.vint < 2 ^ 32)
     (hwt : pf.wt = Spec.wireTypeOf f.ty) (hmap : f.ty ≠ .map)
@@ -130,6 +130,7 @@ theorem value_sim (S : Schema) (rec : Loader) (sub : Spec.SubDecoder)
     exact ⟨v', by simp [Spec.valueOf, toRec, hwt, e1], goodVal_leaf S _ _ (postFixed_leaf _ _ _ hv) e2⟩
   · -- LEN
     rw [h2] at hwt
+    have hsub := hsub hwt
     have hmap' : (f.ty == PType.map) = false := by simpa using hmap
     have hv : postLen S rec f pf.payload = .ok v := by
       unfold decodeValue at h
